@@ -1282,8 +1282,10 @@ class tensor:
             return self.copy()
 
         # Check for special case of an order-1 object, has no effect
-        if (order == 1).all():
+        if self.ndims == 1 and (order == 1).all():
             return self.copy()
+        if np.any(np.sort(order) != np.arange(self.ndims)):
+            assert False, "Invalid permutation order"
 
         # Np transpose does error checking on order, acts as permutation
 
